@@ -1,0 +1,229 @@
+//! Verification hooks (only compiled with `--cfg cormacrelf_incremental_rs_verif`).
+//!
+//! - a registry of weak references to every node created in a state (creation rank = index),
+//! - a thread-local event sink fed from `recompute_one`, `invalidate_node`,
+//!   `became_necessary`, `became_unnecessary` (and by the harness closures),
+//! - `IncrState::verif_dump()`: a textual dump of the whole engine state.
+use std::cell::RefCell;
+use std::fmt::Write;
+use std::rc::Rc;
+
+use crate::kind::Kind;
+use crate::node::{ErasedNode, Node};
+use crate::scope::Scope;
+use crate::state::IncrStatus;
+use crate::{Incr, IncrState, NodeRef};
+
+thread_local! {
+    static EVENTS: RefCell<Vec<String>> = RefCell::new(Vec::new());
+}
+
+/// Push an event onto the thread-local trace.
+pub fn event(s: String) {
+    EVENTS.with(|e| e.borrow_mut().push(s));
+}
+
+/// Take all events recorded so far.
+pub fn take_events() -> Vec<String> {
+    EVENTS.with(|e| std::mem::take(&mut *e.borrow_mut()))
+}
+
+pub(crate) fn node_event(what: &str, node: &Node) {
+    event(format!("{} {}", what, node.verif_rank.get()));
+}
+
+pub(crate) fn register(node: &Rc<Node>) {
+    if let Some(state) = node.weak_state.upgrade() {
+        let mut reg = state.verif_registry.borrow_mut();
+        node.verif_rank.set(reg.len());
+        reg.push(Rc::downgrade(node));
+    }
+}
+
+fn rank(n: &NodeRef) -> usize {
+    n.verif_rank.get()
+}
+
+fn ranks<'a>(it: impl Iterator<Item = usize>) -> String {
+    let v: Vec<String> = it.map(|r| r.to_string()).collect();
+    format!("[{}]", v.join(" "))
+}
+
+fn ints<'a>(it: impl Iterator<Item = &'a i32>) -> String {
+    let v: Vec<String> = it.map(|r| r.to_string()).collect();
+    format!("[{}]", v.join(" "))
+}
+
+fn b(x: bool) -> u8 {
+    x as u8
+}
+
+fn kind_string(node: &Node) -> String {
+    match node.verif_kind() {
+        Kind::Constant(_) => "Const".into(),
+        Kind::Var(v) => v.verif_info(),
+        Kind::Map(m) => format!("Map1{}", ranks([rank(&m.input)].into_iter())),
+        Kind::MapRef(m) => format!("MapRef{}", ranks([rank(&m.input)].into_iter())),
+        Kind::MapWithOld(m) => format!("MapWithOld{}", ranks([rank(&m.input)].into_iter())),
+        Kind::Map2(m) => format!("Map2{}", ranks([&m.one, &m.two].into_iter().map(rank))),
+        Kind::Map3(m) => format!("Map3{}", ranks([&m.one, &m.two, &m.three].into_iter().map(rank))),
+        Kind::Map4(m) => format!(
+            "Map4{}",
+            ranks([&m.one, &m.two, &m.three, &m.four].into_iter().map(rank))
+        ),
+        Kind::Map5(m) => format!(
+            "Map5{}",
+            ranks([&m.one, &m.two, &m.three, &m.four, &m.five].into_iter().map(rank))
+        ),
+        Kind::Map6(m) => format!(
+            "Map6{}",
+            ranks([&m.one, &m.two, &m.three, &m.four, &m.five, &m.six].into_iter().map(rank))
+        ),
+        Kind::ArrayFold(af) => format!("Fold{}", ranks(af.iter_children_packed().map(|c| rank(&c)))),
+        Kind::BindLhsChange { bind } => {
+            let rhs = bind.rhs.borrow();
+            let created = bind.all_nodes_created_on_rhs.borrow();
+            format!(
+                "BindLhs(lhs={},rhs={},created={})",
+                rank(&bind.lhs),
+                rhs.as_ref().map_or("-".to_string(), |r| rank(r).to_string()),
+                ranks(created.iter().filter_map(|w| w.upgrade()).map(|n| rank(&n)))
+            )
+        }
+        Kind::BindMain { lhs_change, .. } => format!("BindMain(lhs_change={})", rank(lhs_change)),
+        Kind::Expert(e) => format!(
+            "Expert(children={},force_stale={},invalid_children={},fire_all={})",
+            ranks(e.children.borrow().iter().map(|c| rank(&c.packed()))),
+            b(e.force_stale.get()),
+            e.num_invalid_children.get(),
+            b(e.will_fire_all_callbacks.get())
+        ),
+    }
+}
+
+fn scope_string(s: &Scope) -> String {
+    match s {
+        Scope::Top => "T".into(),
+        Scope::Bind(w) => match w.upgrade() {
+            Some(bind) => {
+                // BindScope::id is the NodeId of lhs_change; we want its creation rank
+                let _ = bind.id();
+                match bind.verif_lhs_change_rank() {
+                    Some(r) => format!("B{r}"),
+                    None => "B?".into(),
+                }
+            }
+            None => "Bdead".into(),
+        },
+    }
+}
+
+impl IncrState {
+    /// verification hook: one line per fact about the engine state
+    pub fn verif_dump(&self) -> Vec<String> {
+        let t = &self.inner;
+        let mut out = vec![];
+        let (rch_len, rch_lower, nq, queues) = t.recompute_heap.verif_info();
+        let ahh = t.adjust_heights_heap.borrow();
+        let (ahh_len, ahh_seen, nahh) = ahh.verif_info();
+        out.push(format!(
+            "status={} stab={} rch_len={} rch_lower={} nq={} ahh_len={} ahh_seen={} nahh={}",
+            match t.status.get() {
+                IncrStatus::NotStabilising => "N",
+                IncrStatus::Stabilising => "S",
+                IncrStatus::RunningOnUpdateHandlers => "R",
+            },
+            t.stabilisation_num.get().0,
+            rch_len,
+            rch_lower,
+            nq,
+            ahh_len,
+            ahh_seen,
+            nahh
+        ));
+        out.push(format!(
+            "counters var_sets={} recomputed={} created={} changed={} nec={} unnec={} invalidated={} active_obs={}",
+            t.num_var_sets.get(),
+            t.num_nodes_recomputed.get(),
+            t.num_nodes_created.get(),
+            t.num_nodes_changed.get(),
+            t.num_nodes_became_necessary.get(),
+            t.num_nodes_became_unnecessary.get(),
+            t.num_nodes_invalidated.get(),
+            t.num_active_observers.get()
+        ));
+        out.push(format!(
+            "stacks prop_inv={} has={} run={} newobs={} allobs={} disallowed={} setduring={} deadvars={}",
+            t.propagate_invalidity.borrow().len(),
+            t.handle_after_stabilisation.borrow().len(),
+            t.run_on_update_handlers.borrow().len(),
+            t.new_observers.borrow().len(),
+            t.all_observers.borrow().len(),
+            t.disallowed_observers.borrow().len(),
+            t.set_during_stabilisation.borrow().len(),
+            t.dead_vars.borrow().len()
+        ));
+        let mut l = String::from("rch ");
+        let qs: Vec<String> = queues
+            .iter()
+            .map(|(h, q)| format!("{}:{}", h, ranks(q.iter().copied())))
+            .collect();
+        l.push_str(&qs.join(" "));
+        out.push(l);
+        let reg = t.verif_registry.borrow();
+        for (i, w) in reg.iter().enumerate() {
+            let Some(n) = w.upgrade() else {
+                out.push(format!("n {i} dead"));
+                continue;
+            };
+            let mut s = String::new();
+            let pci = n.parent_child_indices.borrow();
+            let parents = n.parents.borrow();
+            let val = match n.value_as_any() {
+                Some(v) => format!("{:?}", &*v).replace(' ', ""),
+                None => "-".into(),
+            };
+            write!(
+                s,
+                "n {} {} valid={} val={} cutoff={} rec={} chg={} nh={} parents={} pix={} cix={} h={} hr={} ha={} has={} fn={} obs={} mrdc={} scope={}",
+                i,
+                kind_string(&n),
+                b(n.is_valid()),
+                val,
+                n.cutoff.borrow().verif_name(),
+                n.recomputed_at.get().0,
+                n.changed_at.get().0,
+                n.num_on_update_handlers.get(),
+                ranks(parents.iter().map(|p| p.upgrade().map_or(usize::MAX, |p| rank(&p)))),
+                ints(pci.my_parent_index_in_child_at_index.iter()),
+                ints(pci.my_child_index_in_parent_at_index.iter()),
+                n.height.get(),
+                n.height_in_recompute_heap.get(),
+                n.height_in_adjust_heights_heap.get(),
+                b(n.is_in_handle_after_stabilisation.get()),
+                b(n.force_necessary.get()),
+                n.observers.borrow().len(),
+                match n.verif_kind() {
+                    Kind::MapRef(m) => b(m.did_change.get()).to_string(),
+                    _ => "-".into(),
+                },
+                scope_string(&n.created_in),
+            )
+            .unwrap();
+            out.push(s);
+        }
+        out
+    }
+
+    /// verification hook: number of nodes registered so far
+    pub fn verif_num_nodes(&self) -> usize {
+        self.inner.verif_registry.borrow().len()
+    }
+}
+
+impl<T> Incr<T> {
+    /// verification hook: creation rank of this node within its state
+    pub fn verif_rank(&self) -> usize {
+        self.node.erased().verif_rank.get()
+    }
+}
